@@ -165,8 +165,44 @@ def check_send_reject():
     return None
 
 
+def check_user_identity_getter():
+    """native: the REAL ServiceUser.user_identity of the peer's side, read from a received A-ASSOCIATE primitive"""
+    import types
+    from pynetdicom.association import ServiceUser
+    from pynetdicom.pdu_primitives import MaximumLengthNotification, ImplementationClassUIDNotification
+    for typ, primary in ((1, b"alice"), (1, b""), (2, b""), (3, b""), (4, b"x")):
+        for pos in (0, 1, 2, None):
+            ident = UserIdentityNegotiation()
+            ident.user_identity_type, ident.primary_field = typ, primary
+            if typ == 2:
+                ident.secondary_field = b"secret"
+            ml = MaximumLengthNotification()
+            ml.maximum_length_received = 16382
+            ic = ImplementationClassUIDNotification()
+            ic.implementation_class_uid = "1.2.3"
+            items = [ml, ic]
+            if pos is not None:
+                items.insert(pos, ident)
+            rq = A_ASSOCIATE()
+            rq.user_information = items
+            su = ServiceUser(types.SimpleNamespace(ae=types.SimpleNamespace(implementation_class_uid="1.2.3", implementation_version_name="V")), "requestor")
+            su.primitive = rq
+            got = su.user_identity
+            want = ident if pos is not None else None
+            if got is not want:
+                return dict(input={"identity item": None if pos is None else {"type": typ, "primary field": repr(primary), "position": pos}},
+                            observed=repr(got), expected="that identity item" if pos is not None else "None")
+    return None
+
+
 def main():
     rec = load() if len(sys.argv) > 1 and sys.argv[1] != "--all" else {"id": "all"}
+    if "ServiceUser.user_identity" in rec.get("id", "") or rec.get("id", "").endswith("cross-check") or rec.get("id") == "all":
+        bad = check_user_identity_getter()
+        if bad:
+            done(True, **bad)
+        if "ServiceUser.user_identity" in rec.get("id", ""):
+            done(False, note="the real getter returned the received identity item whatever its fields hold")
     if "ACSE.send_reject" in rec.get("id", "") or rec.get("id", "").endswith("cross-check") or rec.get("id") == "all":
         bad = check_send_reject()
         if bad:
